@@ -1,7 +1,8 @@
 import Helm.Props.C03
 #print axioms Helm.Props.C03.stUpdate_single
 #print axioms Helm.Props.C03.install_failure_marks_failed
-#print axioms Helm.Props.C03.counterexample_rollback_hook_leaves_pending
+#print axioms Helm.Props.C03.rollback_hook_failure_marks_failed
+#print axioms Helm.Props.C03.rollback_hook_failure_instance
 #print axioms Helm.Props.C03.rollback_update_failure_marks_failed
 #print axioms Helm.Props.C03.upgrade_failure_contained_instance
 #print axioms Helm.Props.C03.atomic_upgrade_restores_instance
